@@ -157,7 +157,9 @@ def gen_c01(r):
         reader = ["unravel", [r.randrange(size) for _ in range(r.randint(0, 5))] if size else []]
     else:
         reader = [rk]
-    return ["readback", ctor, reader], opts_for(r, "readback"), True
+    o = opts_for(r, "readback")
+    o["lkind"] = r.choice(["list", "array", "tuple"])
+    return ["readback", ctor, reader], o, True
 
 
 def gen_c02(r):
@@ -317,9 +319,11 @@ def gen_c05(r):
         name = ["r", r.choice(RED_UF)]
         axis, keep = r.choice([-1, 1]), 0
     else:
-        name = r.choice(RED_NAMES)
+        name = ["n", r.choice(RED_NAMES)]
         axis = r.choice([-1, -1, 1, NONE])
         keep = 1 if axis != NONE and r.random() < 0.25 else 0
+    if name[1] in ("prod", "multiply"):              # products are promoted to 64 bit: keep them inside TLC's integers
+        arr[1] = [[(max(-3, min(3, v)) if not isinstance(v, list) else [max(-3, min(3, v[0])), v[1]]) for v in row] for row in arr[1]]
     return ["reduce", name, arr, axis, keep], opts_for(r, "reduce"), False
 
 
